@@ -22,6 +22,8 @@ structure XOps (α : Type) extends Ops α where
   atan2 : α → α → α
   abs : α → α
   floor : α → α
+  /-- `torch.floor(x).long()`: the floor as an integer (saturating `int64` conversion at floats, `⌊x⌋` on ℝ) -/
+  floorInt : α → Int
   /-- next representable value towards +∞ (identity on ℝ plus nothing: see `realX`) -/
   nextUp : α → α
   isFinite : α → Bool
@@ -70,6 +72,7 @@ def floatX : XOps Float where
   le a b := a <= b
   tanh := Float.tanh; atan := Float.atan; tan := Float.tan; cos := Float.cos; sin := Float.sin
   atan2 := Float.atan2; abs := Float.abs; floor := Float.floor
+  floorInt x := (Float.floor x).toInt64.toInt
   nextUp := Float.nextUp'
   isFinite x := x.isFinite
 
@@ -86,5 +89,6 @@ def float32X : XOps Float32 where
   le a b := a <= b
   tanh := Float32.tanh; atan := Float32.atan; tan := Float32.tan; cos := Float32.cos; sin := Float32.sin
   atan2 := Float32.atan2; abs := Float32.abs; floor := Float32.floor
+  floorInt x := (Float32.floor x).toFloat.toInt64.toInt
   nextUp := Float32.nextUp'
   isFinite x := x.isFinite
